@@ -246,7 +246,7 @@ Definition lambda (m : Z) (factors : list (Z * Z)) : Z :=
   if m =? 2 then 1 else if (m =? 3) || (m =? 4) then 2 else if m =? 8 then 3 else lambda_base factors.
 
 (* IntRNSsystem::RnsToRing = RnsToMixedRadix (Garner, Horner form) + MixedRadixToRing.
-   done = [(p_{i-1}, m_{i-1}); ...; (p_0, m_0)];  m_0 = residu[0] is NOT reduced *)
+   done = [(p_{i-1}, m_{i-1}); ...; (p_0, m_0)];  m_0 = residu[0] mod p_0 (since b08bb0c) *)
 Definition horner (pi : Z) (done : list (Z * Z)) : Z :=
   match done with
   | [] => 0
@@ -268,7 +268,7 @@ Fixpoint mr_loop (done : list (Z * Z)) (todo : list (Z * Z)) : list (Z * Z) :=
 Definition rns_to_ring (primes residues : list Z) : Z :=
   match primes, residues with
   | p0 :: ps, r0 :: rs =>
-    match mr_loop [(p0, r0)] (combine ps rs) with
+    match mr_loop [(p0, r0 mod p0)] (combine ps rs) with      (* b08bb0c: mixrad[0] = residu[0] is reduced like the others *)
     | [] => 0
     | (_, m) :: tl => fold_left (fun res pm => res * fst pm + snd pm) tl m
     end
